@@ -11,7 +11,9 @@ correspondence: (A) attachment histories (2-7 documents, default and explicit na
 oracle:         every reference returned by addObject names a folder that is in the zip with that object's content.xml and
                 styles.xml and in the manifest with that object's media type; after load+save every draw:object
                 xlink:href found in a content.xml still resolves to a folder holding that object's parts; the pictures
-                and other files of a sub-document are still below its folder.
+                and other files of a sub-document are still below its folder.  The loaded document is saved three times (the
+                same in-memory document: a backup, then the real file ...) and the statements are evaluated on each package;
+                a built document is saved twice and its references must resolve in both packages.
 """
 import io, json
 import pkgcommon as pk
@@ -20,6 +22,8 @@ from common import enc_str
 
 OBJECT_SIGS = set(x + y for x in ('object-not-stored-once', 'object-styles-missing', 'object-mediatype', 'picture-missing', 'picture-mediatype')
                   for y in ('', '-after-load'))
+# entry points for the second and third save of a loaded document (the first goes through save(file object))
+RESAVE_VIAS = [('fileobj', 'fileobj'), ('write', 'name'), ('name+suffix', 'write'), ('name', 'fileobj')]
 NAMES = [u'/MyObj', u'MyObj', u'/Object 9', u'/Object 1', u'Object 2', u'/Obj/x', u'//Sub obj', u'\xe9\u6f22']
 
 
@@ -193,6 +197,21 @@ def run_hist(chk, drv, h, oracle_only=False):
         for sig, d in pk.oracle_c03(arch, top):
             if sig in OBJECT_SIGS:          # what C16 says about where an object and its own files are
                 fails.append((sig, d))
+        # the same document saved a second time (through write()): the references were handed out once, they name the folders of
+        # every package this document is saved to
+        raw_b, _ = pk.save_real(ms[0].real, 'write')
+        arch_b = pk.read_archive(raw_b)
+        chk.count('built_document_saved_twice')
+        for (p, c, name), r, ok in zip(h['ops'], refs, res):
+            if r is None or not ok or not reachable(c):
+                continue
+            why = pk.resolve_ref(arch_b, r, c, ms[c].mimetype)
+            if why is not None:
+                fails.append(('reference-does-not-resolve-on-second-save', 'addObject(%d <- %d, %r) returned %r, it resolved in the first '
+                              'saved package; in the second: %s' % (p, c, name, r, why)))
+        for sig, d in pk.oracle_c03(arch_b, top):
+            if sig in OBJECT_SIGS:
+                fails.append((sig + '-on-second-save', d))
         # ---- correspondence with the model
         if not oracle_only:
             t = ['hist'] + pre_tokens[0] + [str(len(ms) - 1)]
@@ -212,6 +231,7 @@ def run_hist(chk, drv, h, oracle_only=False):
                 if impl.strip() != head.strip():
                     chk.corr_diff(h, impl, head, 'references returned by addObject (E = ValueError) / parentsFirst / resolves')
                 pk.compare_listing(chk, h, listing, arch, files, marker_of, 'archive saved after the attachment history')
+                pk.compare_listing(chk, h, listing, arch_b, files, marker_of, 'archive of the second save after the attachment history')
         # ---- part B: load + save
         fails += reload_checks(chk, drv, h, raw, arch, dict((i, m.mimetype) for i, m in enumerate(ms)), oracle_only)
         return fails, refs, arch
@@ -315,6 +335,26 @@ def reload_checks(chk, drv, case, raw, arch, mimetypes, oracle_only, contiguous=
     for sig, d in pk.oracle_c03(arch2, m2, loaded=True):
         if sig in OBJECT_SIGS:
             fails.append((sig, d))
+    # "after load and save": the loaded document is an object one keeps working with - it is saved again (a backup, then the
+    # real file; through another entry point), and again.  Every one of these packages is "the package after load and save":
+    # the same reference / travel / object-folder statements are evaluated on each of them, against the package that was loaded.
+    later = []
+    vias = RESAVE_VIAS[(len(arch.names) + len(raw)) % len(RESAVE_VIAS)]
+    for k, word in ((0, 'second'), (1, 'third')):
+        ctx = c03.Ctx()
+        try:
+            raw_k, _ = pk.save_real(d2, vias[k], ctx.tmp)
+        finally:
+            ctx.close()
+        arch_k = pk.read_archive(raw_k)
+        later.append(arch_k)
+        chk.count('loaded_document_saved_again'); chk.count('loaded_document_saved_again_via_' + vias[k])
+        r, n = ref_checks(arch, arch_k, mimetypes, contiguous, permuted)
+        chk.count('resave_refs_checked', n)
+        again = r + travel_checks(arch, arch_k)
+        chk.count('files_below_object_folders_compared_on_later_saves', travel_checks.compared[0])
+        again += [(sig, d) for sig, d in pk.oracle_c03(arch_k, m2, loaded=True) if sig in OBJECT_SIGS]
+        fails += [('%s-on-%s-save-after-load' % (sig, word), '%s save of the loaded document (%s): %s' % (word, vias[k], d)) for sig, d in again]
     if not oracle_only:
         if pspec is None:
             pspec = {'mimetype': arch.members[0][3].decode('utf-8') if arch.names[:1] == ['mimetype'] else None,
@@ -336,6 +376,9 @@ def reload_checks(chk, drv, case, raw, arch, mimetypes, oracle_only, contiguous=
                 chk.corr_diff(case, *(pk.diff_window(impl, state) + ('document state after load()',)))
             marker_of = dict((x.id, x.marker) for x in m2.walk())
             pk.compare_listing(chk, case, listing, arch2, {}, marker_of, 'archive saved after load()')
+            # the model's save is a function of the document: the second and third save are the same listing
+            for arch_k, word in zip(later, ('second', 'third')):
+                pk.compare_listing(chk, case, listing, arch_k, {}, marker_of, 'archive of the %s save after load()' % word)
     return fails
 
 
@@ -518,7 +561,7 @@ def run_case(chk, drv, case, oracle_only=False):
 def run(chk, replay=None):
     chk.rule = ('attachment histories over 2-7 documents: 45% parents first (the hypothesis of the theorem), 30% any order, 5% with one '
                 'document attached twice or to itself (refused); 30% explicit names from a small pool (duplicates -> ValueError, checked to be atomic); each document with 0-2 pictures, references written into the parent '
-                'as draw:object; every saved package is loaded and saved again; 20% hand-made packages with object folders '
+                'as draw:object; every built document is saved twice, every saved package is loaded and the loaded document saved three times (second and third time through write() / save(name) / save(name, addsuffix)), references, object folders and the objects\' own files checked against the loaded package each time; 20% hand-made packages with object folders '
                 'numbered 7 / 2,5 / 2,1 / 100 ... with pictures, other files and nested objects, 30% of them with 10-12 objects of distinct content and media type, half of those in permuted manifest order; plus ALL histories that attach 1..3 (thorough: 4) '
                 'objects in every order under every admissible parent, nesting <= 3; non-trivial = at least one reference')
     if replay is not None:
@@ -545,6 +588,11 @@ def run(chk, replay=None):
                 chk.count('explicit_names', sum(1 for o in case['ops'] if o[2] is not None))
             for sig, d in fails:
                 chk.fail(sig, case, d)
+            if len(chk.failures) >= 50:
+                # the run has failed and no further failing input is recorded (common.fail keeps 50): stop here - a fault that makes
+                # every save slower than the one before (state that grows from save to save) must not keep the check from answering
+                chk.count('sweep_stopped_after_50_failing_inputs')
+                break
 
     sweep(gen_cases(chk, n))
     chk.deep_search = lambda: sweep(gen_cases(chk, 2 * n), oracle_only=True)
